@@ -155,3 +155,62 @@ package tags
 //@ ensures elseWhenEmpty: decided && nothing && old(len(node.Clauses) == 1 && node.Clauses[0].Name == "else") ==> elseRendered && !looped
 //@ ensures elseOnlyWhenEmpty: elseRendered ==> nothing
 //@ ensures loopOtherwise: decided && !nothing && old(len(node.Clauses)) <= 1 ==> looped && !elseRendered
+
+// ---- tablerow decoration: every cell opens and closes a td, every cols cells a tr (C11);
+// a failing writer is reported, never a panic (C20)
+
+//@ func (tags.tableRowDecorator).before
+//@ props C11 C20 C01
+//@ panics nothing
+//@ requires args: w != nil && i >= 0
+//@ ghost writes Int = 0
+//@ ghost failed Bool = false
+//@ at call Write #*: writes = writes + 1
+//@ at call Write #* assert stopAfterFailure: !failed
+//@ at call Write #*: failed = result1 != nil
+//@ ensures rowStart: !failed ==> writes == ite(tmod(i, c) == 0, 2, 1)
+//@ ensures reported: failed ==> result != nil
+//@ ensures ok: !failed ==> result == nil
+
+//@ func (tags.tableRowDecorator).after
+//@ props C11 C20 C01
+//@ panics nothing
+//@ requires args: w != nil && i >= 0 && i < l
+//@ ghost writes Int = 0
+//@ ghost failed Bool = false
+//@ at call Write #*: writes = writes + 1
+//@ at call Write #* assert stopAfterFailure: !failed
+//@ at call Write #*: failed = result1 != nil
+//@ ensures rowEnd: !failed ==> writes == ite(tmod(i+1, c) == 0 || i+1 == l, 2, 1)
+//@ ensures reported: failed ==> result != nil
+//@ ensures ok: !failed ==> result == nil
+
+//@ func (tags.forLoopDecorator).before
+//@ props C11 C20 C01
+//@ panics nothing
+//@ assigns nothing
+//@ ensures ok: result == nil
+
+//@ func (tags.forLoopDecorator).after
+//@ props C11 C20 C01
+//@ panics nothing
+//@ assigns nothing
+//@ ensures ok: result == nil
+
+// ---- break / continue: the sentinel is what Cause() reports, so only the innermost loop sees it
+
+//@ func tags.breakTag$1
+//@ expect func(_ io.Writer, ctx render.Context) error
+//@ props C11 C01
+//@ panics nothing
+//@ requires args: ctx != nil
+//@ assigns nothing
+//@ ensures sentinel: result != nil
+
+//@ func tags.continueTag$1
+//@ expect func(_ io.Writer, ctx render.Context) error
+//@ props C11 C01
+//@ panics nothing
+//@ requires args: ctx != nil
+//@ assigns nothing
+//@ ensures sentinel: result != nil
